@@ -101,7 +101,9 @@ class Prov(ast.NodeVisitor):
                     return recv
                 if e.func.attr in KEEP:
                     return recv
-                if e.func.attr in ("items", "keys", "transpose", "idxmax", "itertuples"):
+                if e.func.attr in ("items", "values"):
+                    return recv if recv in ("D", "U") else "?"      # the values of a caller-supplied mapping are caller objects (may be labelled Series)
+                if e.func.attr in ("keys", "transpose", "idxmax", "itertuples"):
                     return recv if recv in ("D",) else "?"
             return "?"
         if isinstance(e, (ast.BinOp, ast.Compare)):
@@ -129,7 +131,7 @@ class Prov(ast.NodeVisitor):
             self.env[self.name_of(target)] = val
         elif isinstance(target, ast.Tuple):
             for i, t in enumerate(target.elts):
-                self.assign(t, val[i] if isinstance(val, tuple) and i < len(val) else "?")
+                self.assign(t, val[i] if isinstance(val, tuple) and i < len(val) else ("U" if val == "U" else "?"))
         elif isinstance(target, ast.Subscript):
             base = self.ev(target.value)
             if base == "F" and val in ("D", "U"):
@@ -159,7 +161,7 @@ class Prov(ast.NodeVisitor):
                 self.assign(st.target, v)
             elif isinstance(st, ast.For):
                 it = self.ev(st.iter)
-                self.assign(st.target, "E" if it in ("E", "D") else "?")
+                self.assign(st.target, "E" if it in ("E", "D") else "U" if it == "U" else "?")      # elements of a caller object may be caller pandas objects
                 self.visit_block(st.body)
                 self.visit_block(st.orelse)
             elif isinstance(st, ast.Expr):
